@@ -1,5 +1,5 @@
 --------------------------- MODULE BpfCallsTrace ---------------------------
-(* Trace validation for C10.  A trace is [ncpu |-> possible CPUs of the (real or simulated) host,
+(* Trace validation for C10.  A trace is [possible |-> the possible-CPU ranges <<lo, hi>> of the (real or simulated) host,
    ev |-> the events recorded by harness/fakekernel.py at ebpfcat.bpf.bpf, in order].  The only
    state is the map registry; every map command is judged by BpfCalls!Accept against it.  A
    rejected call does not end the validation of its trace (the registry is unaffected by calls):
@@ -10,7 +10,7 @@ VARIABLES tid, l
 tvars == <<bvars, tid, l>>
 Ev == Traces[tid].ev[l]
 
-TInit == /\ tid \in 1 .. Len(Traces) /\ l = 1 /\ BInit(Traces[tid].ncpu)
+TInit == /\ tid \in 1 .. Len(Traces) /\ l = 1 /\ BInit(CountCpus(Traces[tid].possible, 1))
 Reject(e, why) == PrintT(<<"REJECT", tid, l, why>>)
 TNext == /\ l <= Len(Traces[tid].ev)
          /\ l' = l + 1 /\ UNCHANGED <<tid, ncpu>>
